@@ -41,8 +41,6 @@ import (
 	"fmt"
 	"math"
 	"math/big"
-	"os"
-	"runtime/pprof"
 	"strconv"
 	"sync"
 
@@ -353,11 +351,6 @@ var devDepth = flag.Int("depth", 0, "dev: override search depth")
 func main() {
 	mc.Main("C42", "model_checking", func(c *mc.Ctx) {
 		_ = logger.SetLogLevel("*:NONE")
-		if pf := os.Getenv("C42_PROF"); pf != "" {
-			f, _ := os.Create(pf)
-			pprof.StartCPUProfile(f)
-			defer pprof.StopCPUProfile()
-		}
 		depth := c.Pick(5, 7)
 		if *devDepth > 0 {
 			depth = *devDepth
@@ -403,8 +396,8 @@ func main() {
 			}
 			systems = append(systems, y)
 		}
-		c.Rule = fmt.Sprintf("one explicit-state BFS with state matching per configuration in base max {1,2,5} x max size {1,10,100} x reserved {0,33.3,50,90} x threshold {0,3} x factor {0,0.5,2} (%d configurations, all accepted by NewQuotaFloodPreventer) plus those of %d edge configurations (PercentReserved NaN x2; IncreaseFactor NaN, +Inf, 3e9; base 2^32-1 with max size 2^64-1) that the constructor accepts, on the real quotaFloodPreventer over a real LRU (capacity 1000); events IncreaseLoad(pid in {p,q}, size in %v), Reset, ApplyConsensusSize(n in %v): all event sequences of length <= %d; state = (computed max, both peers' quota records, the oracle's per-peer interval bookkeeping); non-trivial = a message refused by the real preventer after >=1 accepted message of that peer in the interval (distinguished by configuration, number accepted, and whether the quota moved in the interval)",
-			nProduct, len(cfgs)-nProduct, sizes, consensus, depth)
+		c.Rule = fmt.Sprintf("one explicit-state BFS with state matching per configuration in base max {1,2,5} x max size {1,10,100} x reserved {0,33.3,50,90} x threshold {0,3} x factor {0,0.5,2} (%d configurations, all accepted by NewQuotaFloodPreventer) plus those of %d edge configurations (PercentReserved NaN x2; IncreaseFactor NaN, +Inf, 3e9; base 2^32-1 with max size 2^64-1) that the constructor accepts (%d do), on the real quotaFloodPreventer over a real LRU (capacity 1000); events IncreaseLoad(pid in {p,q}, size in %v), Reset, ApplyConsensusSize(n in %v): all event sequences of length <= %d; state = (computed max, both peers' quota records, the oracle's per-peer interval bookkeeping), mirror images under swapping p and q merged; non-trivial = a message refused by the real preventer after >=1 accepted message of that peer in the interval (distinguished by configuration, number accepted, and whether the quota moved in the interval)",
+			nProduct, len(cfgs)-nProduct, len(cfgs)-nProduct-edgeRejected, sizes, consensus, depth)
 		c.Assumptions = []string{
 			"the LRU never evicts (capacity 1000, 2 peers); an evicting cache restarts a peer's record and is outside the statement",
 			"operations are applied one at a time (the preventer serialises them under its mutex); no concurrency is explored",
@@ -413,6 +406,7 @@ func main() {
 			"both readings of 'quota' are checked: the configured maximum (signatures *-over-configured-quota*) and the unreserved share floor((100-PercentReserved)*max/100) in exact rationals (signatures *-over-unreserved-share*); the implementation's integer truncation of the percentage is only stricter",
 			"reset interval = from construction or a Reset() to the next Reset(); 'first message' = the first message offered by that peer in the interval",
 			"no StatusHandlers are attached (statistics are not part of the statement)",
+			"peer symmetry: a state and its mirror image under swapping p and q are explored once (the preventer keeps one independent record per peer id in a cache that never evicts, and the event alphabet is closed under the swap)",
 		}
 		if len(c.ReplayData) > 0 {
 			replay(c, systems)
